@@ -18,8 +18,8 @@ def gen_cases(ctx, n, variants, prefix="g"):
         for t in range(nthreads):
             ops = []
             for _ in range(1 + rng.below(3)):
-                k = 1 + rng.below(4)
-                if k <= 2:
+                k = 1 + rng.below(6)        # 1/2 push_front/back( T const& ), 5/6 push_front/back( T&& ), 3/4 pops
+                if k in (1, 2, 5, 6):
                     ops.append([k, val]); val += 1
                 else:
                     ops.append([k])
@@ -30,6 +30,31 @@ def gen_cases(ctx, n, variants, prefix="g"):
             sched, kind = fc_util.gen_sched(rng, nthreads)
         cfg = [rng.choice(variants), rng.choice([1, 2, 2, 8]), 1 + rng.below(4), rng.choice([0, 0, 1, 2])]
         cases.append({"id": "%s%d" % (prefix, i), "cfg": cfg, "threads": threads, "sched": sched, "kind": kind})
+    return cases
+
+
+def gen_pair_cases(ctx, n, variants, prefix="p"):
+    """a parked combiner, then a push (copy or move overload, either end) and a pop (either end) published in both
+    orders, deque empty or prefilled, elimination on: every (itPrev, it) combination of fc_process is met on empty
+    and on non-empty deques"""
+    rng = ctx.rng
+    elim = [v for v in variants if v in (1, 3)]
+    cases = []
+    for i in range(n):
+        push = rng.choice([1, 2, 5, 6]); pop = rng.choice([3, 4])
+        first, second = ([push, 1], [pop]) if rng.chance(1, 2) else ([pop], [push, 1])
+        threads = [[[rng.choice([3, 4])] if rng.chance(1, 2) else [rng.choice([1, 2, 5, 6]), 2]], [first], [second]]
+        if rng.chance(1, 3):
+            threads.append([[rng.choice([3, 4])]])
+        nt = len(threads)
+        s = [0] * (12 + rng.below(4))
+        for t in range(1, nt):
+            s += [t] * (14 + rng.below(8))
+        s += [0] * (80 + rng.below(60))
+        for t in range(1, nt):
+            s += [t] * (20 + rng.below(20))
+        cfg = [rng.choice(elim), rng.choice([1, 2, 8]), 1 + rng.below(4), rng.choice([0, 1, 1, 2])]
+        cases.append({"id": "%s%d" % (prefix, i), "cfg": cfg, "threads": threads, "sched": s, "kind": "pair"})
     return cases
 
 
@@ -51,25 +76,30 @@ def run(ctx):
             if f.endswith(".json"):
                 cases.append(json.load(open(os.path.join(cdir, f))))
         ncorpus = len(cases)
-        cases += gen_cases(ctx, 12000 if ctx.thorough() else 2000, variants)
+        cases += gen_cases(ctx, 9000 if ctx.thorough() else 1500, variants)
+        cases += gen_pair_cases(ctx, 3000 if ctx.thorough() else 600, variants)
     st = fc_util.observable_lincheck(ctx, impl, cases, lambda c: "deque", "cases",
                                      "a history of the real cds::container::FCDeque is not linearizable to a sequential deque (verified lincheck)",
                                      "the real cds::container::FCDeque crashes or does not terminate under the scheduler",
                                      timeout=(900 if ctx.thorough() else 240))
     if not res.ok:
         ctx.violation("Coq obligations of C10 do not check: %s" % (res.failed[:2],), {"theorem": [f[2] for f in res.failed], "errors": res.failed[:3]}, no_input=True)
-    vh = {}; kh = {}; ph = {}
+    vh = {}; kh = {}; ph = {}; oh = {}
+    names = {1: "push_front(copy)", 2: "push_back(copy)", 3: "pop_front", 4: "pop_back", 5: "push_front(move)", 6: "push_back(move)"}
     for c in cases:
+        for th in c["threads"]:
+            for op in th:
+                oh[names.get(op[0], str(op[0]))] = oh.get(names.get(op[0], str(op[0])), 0) + 1
         vh[str(c["cfg"][0])] = vh.get(str(c["cfg"][0]), 0) + 1
         kh[c.get("kind", "corpus")] = kh.get(c.get("kind", "corpus"), 0) + 1
         ph[str(c["cfg"][2])] = ph.get(str(c["cfg"][2]), 0) + 1
     ctx.coverage.update({
         "evaluations": st["finished"], "distinct_nontrivial": st["distinct_nontrivial"],
-        "rule": "program x schedule pairs on the real FCDeque (2-4 threads, 1-3 mixed-end operations each, unique pushed values, prefill 0-2; variants std::deque / boost::container::deque x elimination off/on; compact factor 1,2,8; combine pass count 1-4; half of the schedules park a combiner while the other threads publish so that a batch reaches fc_process); distinct = distinct histories; non-trivial = a pair was eliminated or one combiner session served several requests",
+        "rule": "program x schedule pairs on the real FCDeque (2-4 threads, 1-3 mixed-end operations each (copy and move overloads of push_front/push_back, pop_front, pop_back), unique pushed values, prefill 0-2; variants std::deque / boost::container::deque x elimination off/on; compact factor 1,2,8; combine pass count 1-4; half of the schedules park a combiner while the other threads publish so that a batch reaches fc_process); distinct = distinct histories; non-trivial = a pair was eliminated or one combiner session served several requests",
         "distinct_histories": st["distinct_histories"], "histories_linearizable": st["ok"], "histories_not_linearizable": st["notlin"],
         "cases_with_elimination": st["collided_cases"], "cases_with_batches": st["batched_cases"], "pairs_eliminated": st["collided"],
         "requests": st["ops"], "combiner_sessions": st["combs"], "unfinished": st["unfinished"], "corpus_cases": ncorpus,
-        "variant_histogram": vh, "schedule_kinds": kh, "pass_count_histogram": ph, "boost_container_deque": boost_dq,
+        "variant_histogram": vh, "schedule_kinds": kh, "pass_count_histogram": ph, "operation_histogram": oh, "boost_container_deque": boost_dq,
         "samples": st["samples"],
         "traces_validated_against_impl": 0,
         "note": "observable correspondence only for FCDeque::fc_process/fc_apply; the kernel underneath is step-checked by C23",
